@@ -78,6 +78,8 @@ func calls(c Case, valid bool) (out []call) {
 	out = append(out,
 		call{style: "defun", src: wrap("(progn " + def + " (" + name + args + "))"), defun: name},
 		call{style: "funcall-lambda", src: wrap("(funcall " + lam + args + ")")},
+		// the definition spells the name with a capital letter, the call does not: symbols are compared without regard to case
+		call{style: "defun-capitalised", src: wrap("(progn (defun C" + name[1:] + " " + ll + " " + body + ") (" + name + args + "))"), defun: name},
 		call{style: "funcall-name", src: wrap("(progn " + def + " (funcall '" + name + args + "))"), defun: name},
 		call{style: "funcall-function", src: wrap("(progn " + def + " (funcall #'" + name + args + "))"), defun: name},
 		call{style: "apply-name", src: wrap("(progn " + def + " (apply '" + name + " '(" + strings.Join(c.Args, " ") + ")))"), defun: name},
